@@ -82,7 +82,9 @@ func Explore(bound int, st *Stats, body func(x *X)) (execs int64, diverged strin
 		}
 		execs++
 		if st != nil {
-			st.Transitions += int64(len(x.choices) - len(prefix))
+			if d := len(x.choices) - len(prefix); d > 0 { // a body that stopped early made no choices at all
+				st.Transitions += int64(d)
+			}
 			if int64(len(x.choices)) > st.MaxDepth {
 				st.MaxDepth = int64(len(x.choices))
 			}
